@@ -18,9 +18,13 @@ def run():
     n = 4 if quick else 5
     stats = b.notes.get('stats', {})
     cov = b.coverage(
-        rule="case = one grammar (plain tuple productions, ordered alternatives) under one of 4 tokenizer "
+        rule="case = one grammar (plain tuple productions, ordered alternatives) under one of 6 tokenizer "
              "configurations (single-character tokens; synonyms + keywords + comments, two terminal choices; "
-             "explicit skip_tokens with 'SPACE' as an ordinary terminal), one of 3 non-terminal name sets, empty "
+             "explicit skip_tokens with 'SPACE' as an ordinary terminal; 2 configurations - family kwonsyn - in "
+             "which keyword entries are keyed by a SYNONYM name: two regex groups renamed to one token NAME / LTR "
+             "with keywords ('NAME','let')->LET, ('NAME','in')->IN resp. ('LTR','k'|'K')->KEY, the plain token and "
+             "the keywords made of it all being terminals of the grammar, token value = text of the named group "
+             "which for back-quoted identifiers is a part of the token text), one of 3 non-terminal name sets, empty "
              "production written None or (); each case = both smart_factorization settings x every token string "
              f"of length <= {n} over the grammar's 2-3 terminals (text rendered from the token list with seeded "
              "token texts / separators / comments, so the expected yield is known by construction). Grammar "
@@ -36,7 +40,11 @@ def run():
              "non-terminals, <= 4 alternatives, <= 4 symbols, biased to shared prefixes and empty alternatives; "
              "seq = Q = ProdSequence(a | a,b | a,Z), E -> 2-3 ordered alternatives from a pool of 12 that use Q (or "
              "Y -> Q b | Q) behind 0-2 leading symbols and before different terminators, so that Q is matched, rolled "
-             f"back and parsed again at a later token ({'15 %' if quick else '60 %'}). "
+             f"back and parsed again at a later token ({'15 %' if quick else '60 %'}); "
+             "kwonsyn = the families above once more under each of the 2 keyword-on-synonym configurations (exh1 all, "
+             f"exh2 {'1 %' if quick else '10 %'}, prefix k=2 {'10 %' if quick else '50 %'}, k=3 {'0.5 %' if quick else '10 %'}, "
+             f"rollback {'0.5 %' if quick else '10 %'}, nested3 {'0.2 %' if quick else '3 %'}, seq {'1 %' if quick else '10 %'}, "
+             f"{150 if quick else 3000} random). "
              "evaluations = grammars + parse calls. non-trivial = grammar accepted by the constructor, >= 1 input "
              "returns a tree and >= 1 input is rejected with ParsingError",
         exhaustive=False,
@@ -55,8 +63,12 @@ def run():
                    "grammars rejected by the constructor (any exception) and parse calls that raise or exceed "
                    f"{driver.PARSE_BUDGET_S} s CPU are skipped: rejection and termination are C02/C03's business",
                    "a childless non-terminal node may carry value None or []",
-                   "the expected token list relies on regular expressions (library `re`) matching the 4 fixed "
-                   "tokenizer patterns as written",
+                   "the expected token list relies on regular expressions (library `re`) matching the 6 fixed "
+                   "tokenizer patterns as written; every rendered text is cross-checked against a reference tokenizer "
+                   "written from the constructor's documentation (token name = synonym of the matching group's name if "
+                   "it has one; then keywords[(token name, value)] if listed - the key of a keyword entry is the token "
+                   "name AFTER synonyms; value = text of the named group; line breaks and white space at the end of a "
+                   "line are no tokens)",
                    "'both smart_factorization settings return the same tree' (DESIGN section 6, not in the property "
                    "statement) and 'only one setting returns a tree' are supporting diagnostics, not violations: on the "
                    "unchanged tree the two settings choose different, equally valid derivations for some ambiguous "
